@@ -67,6 +67,7 @@ static int   g_owner[MAXM];
 static int   g_depth[MAXM]; /* recursion depth (recursive mutexes may be re-locked by their owner) */
 static int   g_nm;
 static __thread int t_tid = -1;
+static __thread int t_rwheld; /* reader/writer locks held by this thread (see below) */
 
 /* exploration trace */
 static int g_prefix[SCH_MAXPTS];
@@ -351,9 +352,67 @@ void sch_alloc_point(void)
     if (!g_alloc_on || !g_active || t_tid < 0)
         return;
     int me = t_tid;
-    if (g_status[me] != ST_RUNNING || g_curop[me] < 0 || holds_any(me))
+    if (g_status[me] != ST_RUNNING || g_curop[me] < 0 || holds_any(me) || t_rwheld > 0)
         return;
     point(SCH_ALLOC, NULL);
+}
+
+/* ---- reader/writer locks: not modelled as schedule points (a thread never parks while it holds one, so
+ * they can never block under the serialising scheduler); we only remember that one is held so that no
+ * allocation point fires inside such a critical section. ------------------------------------------- */
+static int (*real_rdlock)(pthread_rwlock_t*);
+static int (*real_wrlock)(pthread_rwlock_t*);
+static int (*real_tryrdlock)(pthread_rwlock_t*);
+static int (*real_trywrlock)(pthread_rwlock_t*);
+static int (*real_rwunlock)(pthread_rwlock_t*);
+static void resolve_rw(void)
+{
+    if (real_rwunlock)
+        return;
+    real_rdlock    = (int (*)(pthread_rwlock_t*))dlsym(RTLD_NEXT, "pthread_rwlock_rdlock");
+    real_wrlock    = (int (*)(pthread_rwlock_t*))dlsym(RTLD_NEXT, "pthread_rwlock_wrlock");
+    real_tryrdlock = (int (*)(pthread_rwlock_t*))dlsym(RTLD_NEXT, "pthread_rwlock_tryrdlock");
+    real_trywrlock = (int (*)(pthread_rwlock_t*))dlsym(RTLD_NEXT, "pthread_rwlock_trywrlock");
+    real_rwunlock  = (int (*)(pthread_rwlock_t*))dlsym(RTLD_NEXT, "pthread_rwlock_unlock");
+}
+int pthread_rwlock_rdlock(pthread_rwlock_t* l)
+{
+    resolve_rw();
+    int r = real_rdlock(l);
+    if (r == 0)
+        t_rwheld++;
+    return r;
+}
+int pthread_rwlock_wrlock(pthread_rwlock_t* l)
+{
+    resolve_rw();
+    int r = real_wrlock(l);
+    if (r == 0)
+        t_rwheld++;
+    return r;
+}
+int pthread_rwlock_tryrdlock(pthread_rwlock_t* l)
+{
+    resolve_rw();
+    int r = real_tryrdlock(l);
+    if (r == 0)
+        t_rwheld++;
+    return r;
+}
+int pthread_rwlock_trywrlock(pthread_rwlock_t* l)
+{
+    resolve_rw();
+    int r = real_trywrlock(l);
+    if (r == 0)
+        t_rwheld++;
+    return r;
+}
+int pthread_rwlock_unlock(pthread_rwlock_t* l)
+{
+    resolve_rw();
+    if (t_rwheld > 0)
+        t_rwheld--;
+    return real_rwunlock(l);
 }
 
 /* ---- interposed lock operations ------------------------------------------------------------------ */
